@@ -64,7 +64,15 @@ def build_or_report(rep, needed_files):
     for f, line in failed:
         if any(f.endswith(n) or n in f for n in needed_files):
             bad.append(("proof", f, f"line {line}"))
-    return ok, bad, out
+    # a needed file whose compiled form is missing or stale (e.g. because something it imports failed)
+    for n in needed_files:
+        v = os.path.join(H.COQ, n)
+        vo = v[:-2] + ".vo"
+        if os.path.exists(v) and (not os.path.exists(vo) or os.path.getmtime(vo) < os.path.getmtime(v)):
+            if not any(b[1].endswith(n) for b in bad):
+                bad.append(("proof", n, "not compiled (it or one of its imports failed)"))
+    # only this property's own files decide: a failure elsewhere in the project is another property's business
+    return (not bad), bad, out
 
 
 def count_theorems(files):
